@@ -28,6 +28,9 @@ type MCase struct {
 	// that is not an object: the request is malformed at the protocol level).
 	ArgsRaw string   `json:"args_raw,omitempty"`
 	Shape   []string `json:"shape,omitempty"`
+	// NoCfg: the server is started without a configured config path (--config ""): then no path at
+	// all is "the configured config path" and config-writing tools may touch nothing.
+	NoCfg bool `json:"no_cfg,omitempty"`
 }
 
 // Contents used by the fixture and by generated config_apply / config_diff calls.
@@ -537,6 +540,13 @@ func genMCase(ix *rowIndex) *rapid.Generator[MCase] {
 			return MCase{Tool: r.Tool, Role: r.Role, Mutations: r.Mutations, Runtime: r.Runtime, Principal: r.Principal, ArgsRaw: raw, Shape: []string{"arguments-not-an-object"}}
 		}
 		args, shape := genArgs(t, r.Tool, r.Principal)
-		return MCase{Tool: r.Tool, Role: r.Role, Mutations: r.Mutations, Runtime: r.Runtime, Principal: r.Principal, Args: args, Shape: shape}
+		noCfg := false
+		if strings.HasPrefix(r.Tool, "config_") || strings.HasPrefix(r.Tool, "management_") {
+			noCfg = rapid.IntRange(0, 7).Draw(t, "no_cfg") == 3
+		}
+		if noCfg {
+			shape = append(shape, "no-configured-config-path")
+		}
+		return MCase{Tool: r.Tool, Role: r.Role, Mutations: r.Mutations, Runtime: r.Runtime, Principal: r.Principal, Args: args, Shape: shape, NoCfg: noCfg}
 	})
 }
